@@ -238,7 +238,7 @@ def handleIop (j : Json) : Except String Verdict := do
 
 /-! ### fibers -/
 
-def optNat (j : Json) (k : String) : Option Nat :=
+def c11OptNat (j : Json) (k : String) : Option Nat :=
   match j.getObjVal? k with
   | .ok v => match v.getNat? with | .ok n => some n | .error _ => none
   | .error _ => none
@@ -267,7 +267,7 @@ def handleScalarLeaf (j : Json) (op : String) (dflt : Int) : Except String Verdi
     | .ok o => (parseTree 1 o).toOption
     | .error _ => none
   let a0 : Fib Int Int := show List (Int × T 0) from a
-  let n := shapeOf (optNat j "shape") a0
+  let n := shapeOf (c11OptNat j "shape") a0
   if isAdd && !inShapeB n a0 then return { agree := true, spec := true, tags := ["OUT_OF_MODEL"] }
   let m : Fib Int Int := match op with
     | "sadd" | "radd" => saddF dflt s n a0
@@ -275,7 +275,7 @@ def handleScalarLeaf (j : Json) (op : String) (dflt : Int) : Except String Verdi
     | "smul" | "rmul" => smulF dflt s a0
     | _ => ismulF dflt s a0
   let mT : T 1 := show List (Int × T 0) from m
-  let tags := [s!"fiber:{op}", "leaf", s!"dflt{dflt}", if (optNat j "shape").isSome then "shape-declared" else "shape-estimated"] ++
+  let tags := [s!"fiber:{op}", "leaf", s!"dflt{dflt}", if (c11OptNat j "shape").isSome then "shape-declared" else "shape-estimated"] ++
     (if a0.isEmpty then ["emptyA"] else []) ++ (if a0.any (fun e => e.2 == dflt) then ["explicit-default"] else []) ++
     (if isAdd && a0.length < n then ["fills"] else []) ++ (if s == 0 then ["s=0"] else [])
   match implOut with
